@@ -65,7 +65,8 @@ def records_of(calc, tag):
         if viaitems is not None:
             for key in calc.modulus_keys:
                 a, b = numpy.asarray(view[key]), viaitems.get(key)
-                if b is None or b.shape != a.shape or not numpy.array_equal(a, b, equal_nan=True):
+                # (to rounding: a vectorised items() may associate the arithmetic differently)
+                if b is None or b.shape != a.shape or not numpy.allclose(a, b, rtol=1e-11, atol=1e-13 * (float(numpy.nanmax(numpy.abs(a))) if numpy.any(numpy.isfinite(a)) else 1.0), equal_nan=True):
                     out.append({"kind": "items", "name": "c%d%d%s" % (*key.voigt, nm), "tag": tag,
                                 "dev": None if b is None or b.shape != a.shape else float(numpy.nanmax(numpy.abs(a - b)) / (numpy.nanmax(numpy.abs(a)) or 1.0))})
                     break
